@@ -5,6 +5,7 @@
 package c09
 
 import (
+	"encoding/hex"
 	"bytes"
 	"errors"
 	"fmt"
@@ -55,7 +56,11 @@ type Case struct {
 	Perm    int       `json:"perm"` // bit 0 copy, 1 print degraded, 2 print, 3 forms, 4 annotate, 5 assemble, 6 modify
 	Meta    int       `json:"meta"` // 0 no XMP metadata, 1 encrypted, 2 plaintext
 	Title   string    `json:"title"`
-	Objs    []ObjSpec `json:"objs"`
+	// ID holds 0, 1 or 2 caller-chosen file identifier elements (hex); with
+	// one element the Writer adds a random second one.  Revisions 2-4 key the
+	// file with the first element.
+	ID   []string  `json:"id,omitempty"`
+	Objs []ObjSpec `json:"objs"`
 	Tries   []Try     `json:"tries"`
 
 	obs observed
@@ -236,6 +241,13 @@ func (c *Case) write() (data []byte, items []item, meta *pdf.MetadataStream, wer
 		UserPermissions: toLibPerm(c.Perm),
 		HumanReadable:   c.Human,
 	}
+	for _, h := range c.ID {
+		id, err := hex.DecodeString(h)
+		if err != nil {
+			return nil, nil, nil, nil, fmt.Errorf("invalid case: id %q", h)
+		}
+		opt.ID = append(opt.ID, id)
+	}
 	if c.Meta != 0 {
 		meta, err = makeMeta(asciiMarker(c.Title), c.Meta == 2)
 		if err != nil {
@@ -415,6 +427,21 @@ func (c *Case) verify(r *pdf.Reader, items []item, meta *pdf.MetadataStream) err
 		}
 		if !bytes.Equal(gotData, it.data) {
 			return fmt.Errorf("stream %v: got %d bytes %q, want %d bytes %q", it.ref,
+				len(gotData), clip(gotData), len(it.data), clip(it.data))
+		}
+		// once more in small pieces, stopping at io.EOF as io.Copy would
+		k := vt.ChunkSizes[(int(it.ref.Number())+len(it.data))%len(vt.ChunkSizes)]
+		body, err = pdf.DecodeStream(r, nil, stm)
+		if err != nil {
+			return fmt.Errorf("stream %v: second DecodeStream: %v", it.ref, err)
+		}
+		gotData, err = vt.ReadInChunks(body, k)
+		body.Close()
+		if err != nil {
+			return fmt.Errorf("stream %v: read %d bytes at a time: %v", it.ref, k, err)
+		}
+		if !bytes.Equal(gotData, it.data) {
+			return fmt.Errorf("stream %v: read %d bytes at a time (until io.EOF): got %d bytes %q, want %d bytes %q", it.ref, k,
 				len(gotData), clip(gotData), len(it.data), clip(it.data))
 		}
 	}
@@ -711,6 +738,23 @@ func drawCase(t *rapid.T) Case {
 		}
 	}
 	c.Title = "T" + expandPw(clsASCII, rapid.IntRange(1, 20).Draw(t, "title-len"), rapid.Uint64().Draw(t, "title-seed"), false)
+	if nid := rapid.SampledFrom([]int{0, 0, 1, 2, 2}).Draw(t, "nid"); nid > 0 {
+		lens := []int{16, 16, 20, 32}
+		if !r6 {
+			lens = append(lens, 5) // PDF 2.0 demands at least 16 bytes
+		}
+		rnd := vt.NewRand(rapid.Uint64().Draw(t, "id-seed"))
+		for i := 0; i < nid; i++ {
+			id := make([]byte, rapid.SampledFrom(lens).Draw(t, "id-len"))
+			for j := range id {
+				id[j] = byte(rnd.Intn(256))
+			}
+			c.ID = append(c.ID, hex.EncodeToString(id))
+		}
+		if nid == 2 && rapid.IntRange(0, 3).Draw(t, "id-equal") == 0 {
+			c.ID[1] = c.ID[0]
+		}
+	}
 
 	nobj := rapid.IntRange(1, 6).Draw(t, "nobj")
 	for i := 0; i < nobj; i++ {
@@ -812,6 +856,14 @@ func classify(c *Case) (bool, []string) {
 	}
 	nt := false
 	cls = append(cls, fmt.Sprintf("cipher/%s-%d", obs.cipher, obs.keyBits), "version/"+c.Version)
+	switch {
+	case len(c.ID) == 1:
+		cls = append(cls, "id/caller-gives-first-element")
+	case len(c.ID) == 2 && c.ID[0] != c.ID[1]:
+		cls = append(cls, "id/caller-gives-two-distinct-elements")
+	case len(c.ID) == 2:
+		cls = append(cls, "id/caller-gives-two-equal-elements")
+	}
 	closed := closure(c.Perm) == c.Perm
 	if obs.cipher == "RC4" && obs.keyBits == 40 {
 		// Which revision the writer is expected to have chosen: revision 2
